@@ -31,10 +31,16 @@ Theorem C01_var_not_keyword : forall u name v, mangle_var_name u name = Some v -
 Proof. exact mangle_var_not_reserved. Qed.
 Print Assumptions C01_var_not_keyword.
 
-(* a generated file name never ends in a suffix go build gives a meaning to (_test, _linux, _amd64, ...) *)
-Theorem C01_file_name_built : forall u name, mem (last (mangle_file_parts u name) []) build_suffixes = false.
-Proof. exact mangle_file_safe. Qed.
+(* a generated file name never ends in a word the go tool gives a meaning to: _test, or any operating system or
+   architecture of go/build's syslist (past, present and future ports).  The generator's own table is regenerated from
+   GoLangOpts on every run; that it covers the toolchain's lists is the obligation [build_suffixes_cover]
+   (it failed for wasip1 on the tree as found: fix 8e070f8) *)
+Theorem C01_file_name_built : forall u name, mem (last (mangle_file_parts u name) []) go_build_words = false.
+Proof. exact mangle_file_built. Qed.
 Print Assumptions C01_file_name_built.
+Theorem C01_file_name_not_reserved : forall u name, mem (last (mangle_file_parts u name) []) build_suffixes = false.
+Proof. exact mangle_file_safe. Qed.
+Print Assumptions C01_file_name_not_reserved.
 
 (* where every rune of a Go name comes from: ASCII letters/digits, the prefix, or a filtered rune of the name, case-mapped *)
 Theorem C01_go_name_runes : forall u, uni_laws u -> forall name pfx,
